@@ -379,6 +379,8 @@ def _sweep_stale_scratch(max_age_s=6 * 3600):
 
 def batch(pid, tier, seed, budget_s, jobs, max_runs, chunk_size, per_run_wall):
     _sweep_stale_scratch()
+    known_sigs = {k["signature"] for k in load_known()
+                  if k.get("status") == "known" and k["property"] == pid}
     engine = _load_engine(pid)          # import before forking
     rng = random.Random(seed)
     agg = _agg_new()
@@ -416,8 +418,11 @@ def batch(pid, tier, seed, budget_s, jobs, max_runs, chunk_size, per_run_wall):
                     harness_fail = f"worker failed: {type(e).__name__}: {e}"
             if harness_fail:
                 break
-            # stop early once enough distinct unknown violations are in hand
-            if time.time() - t0 < budget_s and len(agg["violations"]) < 200:
+            # stop early once enough unknown violations are in hand (runs
+            # that only hit a recorded known finding do not count)
+            unknown_n = sum(1 for v in agg["violations"]
+                            if v["signature"] not in known_sigs)
+            if time.time() - t0 < budget_s and unknown_n < 200:
                 while len(pending) < jobs * 2 and more():
                     pass
         if harness_fail:
